@@ -27,8 +27,20 @@ def explore(tier, seed_, years=scenarios.YEARS, per_year=None, replays=True, sna
                   "trace": tr, "res": res, "variants": [], "sid": "%d/%d" % (year, k)}
             if replays:
                 # the same inputs from a file: random schedule + reversed request; reversed schedule
-                for label, chooser, req in (("file-rnd", runs.random_chooser(random.Random(k)), list(reversed(request))),
-                                            ("file-rev", runs.reverse_chooser, request)):
+                variants = [("file-rnd", runs.random_chooser(random.Random(k)), list(reversed(request))),
+                            ("file-rev", runs.reverse_chooser, request)]
+                # forms with instances that the return pulled in completely (all their required lines are in the solution),
+                # now ALSO requested by name: the same forms take part, so the result must be the same
+                from habutax.form import InputForm
+                named = []
+                if not res["abort"]:
+                    for fname, fobj in solver.forms.items():
+                        if ":" in fname and not isinstance(fobj, InputForm) and fobj.required_fields() and \
+                                all(x.name() in res["values"] for x in fobj.required_fields()):
+                            named.append(fname)
+                if named:
+                    variants.append(("file-named", None, request + sorted(named)))
+                for label, chooser, req in variants:
                     tid += 1
                     # the answers as the solve command writes them back (InputStore.write), re-read from that FILE
                     wdir = common.mkwork("hv_wb_")
